@@ -15,17 +15,18 @@ from vf.core import HarnessError
 
 
 class Run:
-    __slots__ = ("choices", "nenabled", "running_enabled", "labels", "results", "errors", "deadlock", "switches")
+    __slots__ = ("choices", "nenabled", "running_enabled", "labels", "results", "errors", "deadlock", "switches", "fresh")
 
 
 class Scheduler:
-    def __init__(self, bodies, prefix=(), trace_prefixes=None, record_labels=False, horizon=2_000_000):
+    def __init__(self, bodies, prefix=(), trace_prefixes=None, record_labels=False, horizon=5_000_000, granularity="line"):
         self.bodies = bodies
         self.n = len(bodies)
         self.prefix = list(prefix)
         self.trace_prefixes = tuple(trace_prefixes or ())
         self.record_labels = record_labels
         self.horizon = horizon
+        self.granularity = granularity  # "line": every line executed in traced files; "call": every function entry
         self.sems = [threading.Semaphore(0) for _ in range(self.n)]
         self.done = [False] * self.n
         self.current = None
@@ -34,6 +35,8 @@ class Scheduler:
         self.nenabled = []
         self.running_enabled = []
         self.labels = []
+        self.fresh = []  # per point: first visit of this code location by the running thread?
+        self.visited = [set() for _ in range(self.n)]
         self.results = [None] * self.n
         self.errors = [None] * self.n
         self.idents = {}
@@ -59,6 +62,15 @@ class Scheduler:
             self.failure = f"schedule diverged while replaying: choice {c} at point {k} but only {len(en)} thread(s) enabled"
             raise HarnessError(self.failure)
         self.choices.append(c)
+        if running is not None and label is not None and not isinstance(label, str):
+            v = self.visited[running]
+            if label in v:
+                self.fresh.append(False)
+            else:
+                v.add(label)
+                self.fresh.append(True)
+        else:
+            self.fresh.append(True)
         self.nenabled.append(len(en))
         self.running_enabled.append(running is not None and not self.done[running])
         if self.record_labels:
@@ -80,11 +92,15 @@ class Scheduler:
         fn = frame.f_code.co_filename
         if not fn.startswith(self.trace_prefixes):
             return None
+        if self.granularity == "call":
+            if event == "call":
+                self.point((fn, frame.f_code.co_firstlineno))
+            return None
         return self._local
 
     def _local(self, frame, event, arg):
         if event == "line":
-            self.point(None)
+            self.point((frame.f_code.co_filename, frame.f_lineno))
         return self._local
 
     def _worker(self, i):
@@ -130,6 +146,7 @@ class Scheduler:
         ok = self.finished.acquire(timeout=timeout)
         r = Run()
         r.choices, r.nenabled, r.running_enabled, r.labels = self.choices, self.nenabled, self.running_enabled, self.labels
+        r.fresh = self.fresh
         r.results, r.errors = self.results, self.errors
         r.deadlock = not ok
         r.switches = sum(1 for c in self.choices if c != 0)
@@ -146,8 +163,9 @@ class Scheduler:
         return r
 
 
-def explore(make_bodies, bound, check, trace_prefixes=None, max_executions=None, record_labels=False):
-    """Iterative context bounding.  make_bodies() -> list of callables on FRESH state (called once per execution);
+def explore(make_bodies, bound, check, trace_prefixes=None, max_executions=None, record_labels=False, granularity="line", first_visits_only=False):
+    """Iterative context bounding.  first_visits_only: preempt a thread only at the first visit of each code location
+    (line or function) - a systematic reduction of the preemption points, reported as such by the caller.  make_bodies() -> list of callables on FRESH state (called once per execution);
     check(run) inspects one complete execution.  Returns dict(executions, points_max, capped)."""
     stack = [[]]
     executions = 0
@@ -156,7 +174,7 @@ def explore(make_bodies, bound, check, trace_prefixes=None, max_executions=None,
     while stack:
         prefix = stack.pop()
         bodies = make_bodies()
-        x = Scheduler(bodies, prefix, trace_prefixes, record_labels).run()
+        x = Scheduler(bodies, prefix, trace_prefixes, record_labels, granularity=granularity).run()
         executions += 1
         maxpoints = max(maxpoints, len(x.choices))
         check(x)
@@ -172,6 +190,8 @@ def explore(make_bodies, bound, check, trace_prefixes=None, max_executions=None,
         for i in range(len(prefix), len(x.choices)):
             ne = x.nenabled[i]
             if ne <= 1:
+                continue
+            if first_visits_only and x.running_enabled[i] and not x.fresh[i]:
                 continue
             cost = costs[i] + (1 if x.running_enabled[i] else 0)
             if bound is not None and cost > bound:
